@@ -19,10 +19,14 @@ ID = "C10"
 UNSET = "<unset>"
 
 NAMES = ["c", "al", "ad", "l", "d", "s", "fac", "dyn", "t", "u", "inst", "ts", "td", "us", "tn",
-         "ps", "cn", "sh", "kid"]
+         "ps", "cn", "sh", "kid", "aod", "als", "mp"]
 
 DYN = types.ModuleType("simtraits.dyn")
 sys.modules["simtraits.dyn"] = DYN
+
+
+class ListSub(list):
+    pass
 
 
 class KidMarker:
@@ -51,6 +55,7 @@ def declared_default(cls_name, name):
         "fac": {"made": True}, "dyn": ["dyn", cls_name], "t": ([], 0), "u": [], "inst": [7],
         "ts": (set(), 0), "td": ({}, 0), "us": set(), "tn": ("", (set(), 0)),
         "ps": ["ps", cls_name], "cn": [5, 6], "sh": 7, "kid": KidMarker(),
+        "aod": {"k": 1}, "als": [1, 2], "mp": "a",
     }
     if cls_name == "B":
         d["l"] = [9]
@@ -169,6 +174,16 @@ class Prop:
             def post_setattr(self, object, name, value):
                 env.point("post_setattr:ps")
 
+        def _mp_default(self):
+            env.point("default:mp")
+            key = (self.__dict__.get("_sim_serial"), "mp")
+            calls[key] = calls.get(key, 0) + 1
+            return "a"
+
+        def _mp__changed(self, old, new):
+            # a listener on the shadow value of the mapped trait
+            hlog.append(("static", id(self), "mp_"))
+
         def mk_dyn(cls_name):
             def _dyn_default(self):
                 env.point("default:dyn")
@@ -220,6 +235,12 @@ class Prop:
                 # a ready-made trait definition object that another class declares too
                 "sh": shared_ct,
                 "kid": Instance(Kid, ()), "_q_changed_for_kid": _q_changed_for_kid,
+                # list / dict defaults that are instances of SUBCLASSES of list / dict
+                "aod": Any(__import__("collections").OrderedDict([("k", 1)])),
+                "als": Any(ListSub([1, 2])),
+                # a mapped trait with a default method and a listener on its shadow
+                "mp": __import__("traits.api").api.Map({"a": 1, "b": 2}),
+                "_mp_default": _mp_default, "_mp__changed": _mp__changed,
                 "v_": Int(7),
                 "_dyn_default": mk_dyn("A"), "_c_changed": _c_changed,
                 "_anytrait_changed": _anytrait_changed,
@@ -509,7 +530,7 @@ class Prop:
 
     @staticmethod
     def check_counts(calls, calls0, o, name, fresh, cn, step):
-        if name in ("dyn", "ps"):
+        if name in ("dyn", "ps", "mp"):
             key = (o.__dict__.get("_sim_serial"), name)
             d = calls.get(key, 0) - calls0.get(key, 0)
             if fresh and d != 1:
@@ -534,7 +555,9 @@ class Prop:
             return ([n] if op.get("alt") else {"q": n}), True
         if name == "kid":
             return (5, False) if bad else (DYN.Kid(q=n), True)
-        if name in ("al", "ad", "fac", "dyn", "ps"):
+        if name == "mp":
+            return ("zz", False) if bad else (("b" if op.get("alt") else "a"), True)
+        if name in ("al", "ad", "fac", "dyn", "ps", "aod", "als"):
             return ([n] if op.get("alt") else {"q": n}), True
         if name == "l":
             return (["x"], False) if bad else ([n, n + 1], True)
